@@ -2,7 +2,7 @@
 # Offline setup: compile the simulator once (warms the Go build cache) from the
 # files on disk, with the hooks on and off.
 export GOFLAGS=-mod=mod GOPROXY=off GOSUMDB=off GOTOOLCHAIN=local
-cd /verif || exit 2
+cd "$(dirname "$0")" || exit 2
 mkdir -p bin evidence
 go build -tags verif -o bin/geomsim ./cmd/geomsim || exit 2
 (cd /repo && go build . ./index/rtree ./route ./proj ./encoding/osm ./encoding/wkb ./encoding/hex ./encoding/geojson) || exit 2
